@@ -6,6 +6,7 @@ import (
 	"fmt"
 	"reflect"
 	"strings"
+	"unicode/utf8"
 
 	json "github.com/goccy/go-json"
 
@@ -335,3 +336,91 @@ func c18Invalid(c *work.Ctx) {
 		}
 	}
 }
+
+// ---- length ladders --------------------------------------------------------------------------------------
+//
+// c18.lengths: Valid and HTMLEscape decode through the stream decoder (512-byte buffer, doubling), Compact and
+// Indent scan the text themselves: the one-parameter families of the length ladders (strings of N atoms, N
+// digits, N elements / members / sibling containers, N white-space bytes ...) plus white-space runs OUTSIDE the
+// top-level value (before it, behind it, behind it and followed by garbage), for every N of the ladder, judged
+// by encoding/json's verdict and bytes.
+
+func init() {
+	work.Register("C18", "c18.lengths", c18Lengths)
+}
+
+func c18Lengths(c *work.Ctx) {
+	fams := ladderFamilies()
+	ws := func(n int) string { return strings.Repeat(" \n\t\r", n/4) + strings.Repeat(" ", n%4) }
+	fams = append(fams,
+		ladderFam{"N white-space bytes before the value", func(n int) string { return ws(n) + `[1,"a"]` }, ""},
+		ladderFam{"N white-space bytes behind the value", func(n int) string { return `{"a":[1]}` + ws(n) }, ""},
+		ladderFam{"N white-space bytes on both sides", func(n int) string { return ws(n) + `"s"` + ws(n) }, ""},
+		ladderFam{"value, N white-space bytes, garbage", func(n int) string { return `[1,2]` + ws(n) + `x` }, ""},
+		ladderFam{"value, N white-space bytes, a second value", func(n int) string { return `[1,2]` + ws(n) + `3` }, ""},
+		ladderFam{"value, N white-space bytes, a closing bracket", func(n int) string { return `[1,2]` + ws(n) + `]` }, ""},
+		ladderFam{"N white-space bytes only", func(n int) string { return ws(n) }, ""},
+		ladderFam{"N white-space bytes after a colon", func(n int) string { return `{"a":` + ws(n) + `1}` }, ""},
+	)
+	compact := c18Fn{"Compact", func(d *bytes.Buffer, s []byte) error { return stdjson.Compact(d, s) }, func(d *bytes.Buffer, s []byte) error { return json.Compact(d, s) }}
+	indent := c18Fn{"Indent", func(d *bytes.Buffer, s []byte) error { return stdjson.Indent(d, s, "", " ") }, func(d *bytes.Buffer, s []byte) error { return json.Indent(d, s, "", " ") }}
+	ns0 := ladderNs(c.Quick())
+	for _, f := range fams {
+		ns := ns0
+		if strings.HasPrefix(f.name, "siblings:") {
+			ns = siblingNs(c.Quick())
+		}
+		for _, n := range ns {
+			id := fmt.Sprintf("%s, N=%d", f.name, n)
+			if !c.BeginS(id) {
+				continue
+			}
+			src := []byte(f.mk(n))
+			nb := ladderBucket(n)
+			std := stdjson.Valid(src)
+			// Valid
+			var g bool
+			if p, msg := util.Safe(func() { g = json.Valid(append([]byte(nil), src...)) }); p {
+				c.Violation(fmt.Sprintf("length ladder : Valid : panic : %s : %s", f.name, nb), id, msg)
+			} else if g != std {
+				c.Violation(fmt.Sprintf("length ladder : Valid : %v on a text encoding/json judges %v : %s : %s", g, std, f.name, nb), id, "")
+			}
+			c.Outcome(fmt.Sprint(std))
+			// Compact, Indent
+			for _, fn := range []*c18Fn{&compact, &indent} {
+				if kind, detail := c18Check(fn, src, false); kind != "" {
+					c.Violation(fmt.Sprintf("length ladder : %s : %s : %s : %s", fn.name, kind, f.name, nb), id, clipTailS(detail))
+				}
+			}
+			// HTMLEscape: for a valid text an equivalent text without raw specials; it always returns
+			out, _, p, msg := c18Run(func(d *bytes.Buffer, s []byte) error { json.HTMLEscape(d, s); return nil }, src, false)
+			switch {
+			case p:
+				c.Violation(fmt.Sprintf("length ladder : HTMLEscape : panic : %s : %s", f.name, nb), id, msg)
+			case std && utf8Valid(src):
+				var a, b interface{}
+				da := stdjson.NewDecoder(bytes.NewReader(out))
+				da.UseNumber()
+				db := stdjson.NewDecoder(bytes.NewReader(src))
+				db.UseNumber()
+				ea, eb := da.Decode(&a), db.Decode(&b)
+				if ea != nil || eb != nil || !reflect.DeepEqual(a, b) {
+					c.Violation(fmt.Sprintf("length ladder : HTMLEscape : output is not the same JSON value : %s : %s", f.name, nb), id, fmt.Sprintf("%d bytes in, %d bytes out: %q", len(src), len(out), clip(out)))
+				}
+			}
+			if c.WantSample() {
+				c.Sample(id)
+			}
+			c.EndCase()
+		}
+	}
+}
+
+func clipTailS(s string) string {
+	if len(s) > 300 {
+		return s[:150] + " ... " + s[len(s)-120:]
+	}
+	return s
+}
+
+func utf8Valid(b []byte) bool { return utf8.Valid(b) }
